@@ -648,6 +648,16 @@ func (f *fakeRT) RoundTrip(ctx context.Context, addr net.Addr, req kafka.Request
 // ---------------------------------------------------------------------------------------------
 // scenarios
 
+// a user-supplied logger (goroutine-safe, as the Logger documentation requires): turns on the logging branches
+var logged int64
+
+func logger(rng *rand.Rand) kafka.Logger {
+	if rng.Intn(2) == 0 {
+		return nil
+	}
+	return kafka.LoggerFunc(func(string, ...interface{}) { atomic.AddInt64(&logged, 1) })
+}
+
 func msgs(rng *rand.Rand, n int) []kafka.Message {
 	out := make([]kafka.Message, n)
 	for i := range out {
@@ -696,7 +706,9 @@ func scenWriter(rng *rand.Rand, rounds int) {
 		rt := &fakeRT{parts: 1 + rng.Intn(3), delay: time.Duration(rng.Intn(3)) * time.Millisecond, fail: int32(rng.Intn(4))}
 		var completions int64
 		w := &kafka.Writer{Addr: kafka.TCP("fake:9092"), Topic: "t", Transport: rt, BatchTimeout: time.Duration(1+rng.Intn(5)) * time.Millisecond,
-			BatchSize: 1 + rng.Intn(4), RequiredAcks: kafka.RequireOne, Async: rng.Intn(3) == 0, MaxAttempts: 3,
+			BatchSize: 1 + rng.Intn(4), RequiredAcks: []kafka.RequiredAcks{kafka.RequireOne, kafka.RequireAll, kafka.RequireOne, kafka.RequireNone}[rng.Intn(4)], Async: rng.Intn(3) == 0, MaxAttempts: 3,
+			Logger: logger(rng), ErrorLogger: logger(rng), BatchBytes: int64([]int{0, 64, 1 << 20}[rng.Intn(3)]),
+			Compression:     []kafka.Compression{0, kafka.Snappy, kafka.Gzip, kafka.Lz4, kafka.Zstd}[rng.Intn(5)],
 			WriteBackoffMin: time.Millisecond, WriteBackoffMax: 2 * time.Millisecond}
 		switch rng.Intn(3) {
 		case 0:
@@ -937,7 +949,7 @@ func scenReaderFront(rng *rand.Rand, rounds int) {
 		d := &kafka.Dialer{DialFunc: func(ctx context.Context, network, address string) (net.Conn, error) {
 			return nil, errors.New("fake: no broker")
 		}}
-		r := kafka.NewReader(kafka.ReaderConfig{Brokers: []string{"fake:9092"}, Topic: "t", Partition: 0, Dialer: d, MaxWait: 10 * time.Millisecond,
+		r := kafka.NewReader(kafka.ReaderConfig{Brokers: []string{"fake:9092"}, Logger: logger(rng), ErrorLogger: logger(rng), Topic: "t", Partition: 0, Dialer: d, MaxWait: 10 * time.Millisecond,
 			ReadBackoffMin: time.Millisecond, ReadBackoffMax: 2 * time.Millisecond, ReadLagInterval: time.Duration(rng.Intn(2)) * 5 * time.Millisecond})
 		ops := readerOps(rng, r, 15*time.Millisecond)
 		if i%2 == 0 {
@@ -990,7 +1002,7 @@ func scenReader(rng *rand.Rand, rounds int) {
 	for i := 0; i < rounds; i++ {
 		b := newBroker("t", 1, 6+rng.Intn(6))
 		d := &kafka.Dialer{DialFunc: func(ctx context.Context, network, address string) (net.Conn, error) { return b.dial(), nil }}
-		r := kafka.NewReader(kafka.ReaderConfig{Brokers: []string{"fake:9092"}, Topic: "t", Partition: 0, Dialer: d, MinBytes: 1, MaxBytes: 1 << 20,
+		r := kafka.NewReader(kafka.ReaderConfig{Brokers: []string{"fake:9092"}, Logger: logger(rng), ErrorLogger: logger(rng), Topic: "t", Partition: 0, Dialer: d, MinBytes: 1, MaxBytes: 1 << 20,
 			MaxWait: 20 * time.Millisecond, ReadBackoffMin: time.Millisecond, ReadBackoffMax: 2 * time.Millisecond, QueueCapacity: 1 + rng.Intn(4)})
 		ops := readerOps(rng, r, 100*time.Millisecond)
 		if i%2 == 0 {
@@ -1012,7 +1024,7 @@ func scenReaderGroup(rng *rand.Rand, rounds int) {
 		b.maxJoin, b.maxFetch, b.maxMeta = []int16{1, 2}[i%2], []int16{10, 5, 2}[(i/2)%3], []int16{6, 1}[(i/3)%2]
 		d := &kafka.Dialer{DialFunc: func(ctx context.Context, network, address string) (net.Conn, error) { return b.dial(), nil }}
 		commitEvery := time.Duration(rng.Intn(2)) * 5 * time.Millisecond
-		r := kafka.NewReader(kafka.ReaderConfig{Brokers: []string{"fake:9092"}, GroupID: "g", Topic: "t", Dialer: d, MinBytes: 1, MaxBytes: 1 << 20,
+		r := kafka.NewReader(kafka.ReaderConfig{Brokers: []string{"fake:9092"}, Logger: logger(rng), ErrorLogger: logger(rng), GroupID: "g", Topic: "t", Dialer: d, MinBytes: 1, MaxBytes: 1 << 20,
 			MaxWait: 20 * time.Millisecond, ReadBackoffMin: time.Millisecond, ReadBackoffMax: 2 * time.Millisecond, QueueCapacity: 1 + rng.Intn(4),
 			HeartbeatInterval: 10 * time.Millisecond, CommitInterval: commitEvery, JoinGroupBackoff: 5 * time.Millisecond,
 			SessionTimeout: 2 * time.Second, RebalanceTimeout: 2 * time.Second, PartitionWatchInterval: 20 * time.Millisecond, WatchPartitionChanges: rng.Intn(2) == 0})
@@ -1060,8 +1072,9 @@ func scenReaderRebalance(rng *rand.Rand, rounds int) {
 		b.group = newGroupCoord()
 		d := &kafka.Dialer{DialFunc: func(ctx context.Context, network, address string) (net.Conn, error) { return b.dial(), nil }}
 		commitEvery := time.Duration(rng.Intn(2)) * 5 * time.Millisecond
+		lg, elg := logger(rng), logger(rng) // mk runs inside operations: no rng there
 		mk := func() *kafka.Reader {
-			return kafka.NewReader(kafka.ReaderConfig{Brokers: []string{"fake:9092"}, GroupID: "g", Topic: "t", Dialer: d, MinBytes: 1, MaxBytes: 1 << 20,
+			return kafka.NewReader(kafka.ReaderConfig{Brokers: []string{"fake:9092"}, Logger: lg, ErrorLogger: elg, GroupID: "g", Topic: "t", Dialer: d, MinBytes: 1, MaxBytes: 1 << 20,
 				MaxWait: 20 * time.Millisecond, ReadBackoffMin: time.Millisecond, ReadBackoffMax: 2 * time.Millisecond, QueueCapacity: 2,
 				HeartbeatInterval: 10 * time.Millisecond, CommitInterval: commitEvery, JoinGroupBackoff: 5 * time.Millisecond,
 				SessionTimeout: 2 * time.Second, RebalanceTimeout: 2 * time.Second})
@@ -1220,7 +1233,12 @@ func scenConn(rng *rand.Rand, rounds int) {
 			{"Conn.DeleteTopics", func() { ok("Conn.DeleteTopics", c.DeleteTopics("n")) }},
 			{"Conn.Read", func() { _, err := c.Read(make([]byte, 64)); ok("Conn.Read", err) }},
 			{"Conn.Broker", func() { c.Broker(); c.LocalAddr(); c.RemoteAddr() }},
-			{"Batch.ReadMessage", func() { bt := getBatch(); _, err := bt.ReadMessage(); ok("Batch.ReadMessage"+fv, err); bt.ReadMessage() }},
+			{"Batch.ReadMessage", func() {
+				bt := getBatch()
+				_, err := bt.ReadMessage()
+				ok("Batch.ReadMessage"+fv, err)
+				bt.ReadMessage()
+			}},
 			{"Batch.Read", func() { bt := getBatch(); _, err := bt.Read(make([]byte, 2)); ok("Batch.Read", err) }},
 			{"Batch.Err", func() { getBatch().Err() }},
 			{"Batch.Offset", func() { bt := getBatch(); bt.Offset(); bt.HighWaterMark(); bt.Throttle(); bt.Partition() }},
